@@ -273,7 +273,7 @@ Qed.
 (* ---- the eager consumers: splitAt and groupBy --------------------------------------------------------------- *)
 Lemma consumer_split_at i l n : Denotes i l -> forall s, exists fuel s',
   apply_stage fuel s (SSplitAt n) (RIter i) =
-  (s', Ok (RVal (VList true [VList false (fst (split_at_l l n)); VList false (snd (split_at_l l n))]))).
+  (s', Ok (RVal (VList false [VList false (fst (split_at_l l n)); VList false (snd (split_at_l l n))]))).
 Proof.
   intros D s. destruct (denotes_drain l i D s) as (fuel & s' & E). exists fuel, s'.
   cbn [apply_stage]. unfold with_list. cbn [as_it]. rewrite E. destruct (split_at_l l n). reflexivity.
